@@ -256,6 +256,15 @@ func PoolPut(p *sync.Pool, v any, site uint32) {
 		s.mu.Unlock()
 		return
 	}
+	// half of the runs scribble over byte buffers that are handed back to a pool, as the next user of
+	// the buffer is free to do at any moment: a view of a released buffer that is still in use shows
+	if !s.poisonInit {
+		s.poisonInit = true
+		s.poison = PoisonHook != nil && s.Tape.Chance(500)
+	}
+	if s.poison && PoisonHook(v) {
+		s.Counters["pool_buffer_poisoned"]++
+	}
 	if s.Tape.Chance(s.cfg.PoolDropPermille) {
 		s.Counters["pool_drop"]++
 	} else {
@@ -263,6 +272,10 @@ func PoolPut(p *sync.Pool, v any, site uint32) {
 	}
 	s.mu.Unlock()
 }
+
+// PoisonHook overwrites the spare bytes of a pooled buffer object (set by the harness, which knows
+// the buffer types; simrt itself must not import them). Reports whether v was such an object.
+var PoisonHook func(v any) bool
 
 // ResetPools empties every simulated pool (a brand-new process, as far as
 // pooled objects are concerned).
